@@ -41,7 +41,7 @@ Idle(c) == rd[c] = "idle" /\ ~wr[c]                      \* vbi_proxy_msg_is_idl
 Reply(c) == wr' = [wr EXCEPT ![c] = TRUE] /\ rd' = [rd EXCEPT ![c] = "idle"]
 NoReply(c) == wr' = wr /\ rd' = [rd EXCEPT ![c] = "idle"]
 Reset(c) == wr' = [wr EXCEPT ![c] = FALSE] /\ rd' = [rd EXCEPT ![c] = "idle"]
-Crash == up' = FALSE /\ UNCHANGED <<order, cst, prio, valid, tok, svc, holders, rd, wr>>
+Crash == up' = FALSE /\ UNCHANGED <<order, cst, prio, valid, tok, svc, nsi, holders, rd, wr>>
 
 \* the connection is dropped: vbi_proxyd_close + removal (ProxyToken!Gone)
 Drop(c) == Gone(c) /\ Reset(c)
@@ -51,8 +51,8 @@ Drop(c) == Gone(c) /\ Reset(c)
 
 CAccept(c) == Accept(c) /\ UNCHANGED <<rd, wr>>
 
-\* CONNECT_REQ in WAIT_CON_REQ: confirmed (s: services granted) ...
-MConnect(c, s) == Readable(c) /\ Connect(c, s) /\ Reply(c)
+\* CONNECT_REQ in WAIT_CON_REQ: confirmed (s: services granted; f: NO_STATUS_IND among the client flags) ...
+MConnect(c, s, f) == Readable(c) /\ Connect(c, s, f) /\ Reply(c)
 \* ... or rejected (incompatible version / no service could be granted): CONNECT_REJ is queued and the
 \* connection closed in the same pass.  DAEMON_PID_REQ likewise (confirmation, then close).
 MConnectRej(c) == Readable(c) /\ cst[c] = "wait" /\ Drop(c)
@@ -102,7 +102,7 @@ CTimer == Timer /\ UNCHANGED <<rd, wr>>
 
 \* everything client c can cause
 ClientStep(c) ==
-  \/ \E s \in BOOLEAN : MConnect(c, s) \/ MServiceReq(c, s)
+  \/ \E s \in BOOLEAN : MServiceReq(c, s) \/ \E f \in BOOLEAN : MConnect(c, s, f)
   \/ MConnectRej(c) \/ MPidReq(c) \/ MIoctl(c) \/ MSuspend(c) \/ MReclaimCnf(c) \/ MCloseReq(c)
   \/ \E p \in Prios, v \in BOOLEAN : MTokenReq(c, p, v)
   \/ \E F \in SUBSET Flags : MNotify(c, F)
